@@ -25,6 +25,10 @@ CHECKS = {
          "Every generated expression is evaluated on every document of the small-scope universe by xml_xpath::query (merged-text view) and by the reference evaluator; node-sets must hold exactly the expected nodes, once, in document order; scalars compare exactly.",
          "Trusts mc/src/model/xpath.rs (DESIGN.md Appendix C) and the node mapping in mc/src/checks/xp.rs; expressions and documents beyond the bounds are not covered; caller bindings are varied in C10.",
          "DESIGN.md §5 C05"),
+ "C06": ("supervised exhaustive sweeps of xml_xpath::query: all token strings up to length L over 41 tokens, an unsupported / ill-typed / select-nothing catalogue in every syntactic position, the well-typed C05 families, 32 hostile shape families with doubling sizes; crash / hang attributed to the exact expression by worker processes",
+         "Every enumerated expression string is evaluated on four documents in supervised workers; the only acceptable outcomes are a value or an error (and error-or-empty for variable references and id()); time blow-ups are judged by a soft cap with a 16x growth test.",
+         "Time verdicts are caps; strings longer than L over other tokens are not covered; the worker has the default 8 MiB main-thread stack.",
+         "DESIGN.md §5 C06"),
  "C07": ("bounded-exhaustive node-set invariants on the implementation's own results: every path of a pool, every ordered pair (union algebra, counts, positional filters) and every triple of a sub-pool (associativity) on every document",
          "Each node-set the implementation returns is checked for duplicates and document order; A|B against the set union of A and B, commutativity, idempotence, count bound, positional filters on parenthesised unions, associativity.",
          "Node identity is (kind, XmlNode::id()); document order comes from the harness's own walk, not from XmlNode::order(); no reference evaluator is needed.",
